@@ -14,6 +14,14 @@ from props.c17 import image_case
 import htmlobs as HO
 
 
+ASCII_LOCALE = dict(LANG="C", LC_ALL="C", PYTHONCOERCECLOCALE="0", PYTHONUTF8="0", PYTHONIOENCODING="")
+
+
+def as_stderr(text, ascii_locale):
+    """what Python's sys.stderr (error handler backslashreplace) makes of `text` under the locale of the run, decoded as UTF-8"""
+    return text.encode("ascii", "backslashreplace").decode("ascii") if ascii_locale else text
+
+
 def run_cli(args, cwd, env_extra=None):
     env = dict(os.environ, PYTHONPATH=REPO, LANG="C.UTF-8", LC_ALL="C.UTF-8", PYTHONIOENCODING="utf-8")
     env.update(env_extra or {})
@@ -439,7 +447,13 @@ def run(out, tier, seed, model_ok):
         if bulk and bulk["align"] and mode != "dir":
             data = bulk_align(mammoth, bulk, parts, pad_text, inpath, os.path.join(d, "style.map") if sm is not None else None, fmt) or data
         before = snapshot(outdir) if mode == "dir" else {}
-        p = run_cli(args, d)
+        # "the UTF-8 encoding of the value" whatever the locale of the process: some runs (ASCII-only style-map file, because
+        # the command reads that file in the locale's encoding) are made under the C locale with UTF-8 mode and locale
+        # coercion switched off, where an output file opened without an explicit encoding cannot hold non-ASCII text
+        asc = (sm is None or sm.isascii()) and hrng.random() < 0.3
+        p = run_cli(args, d, ASCII_LOCALE if asc else None)
+        if asc:
+            out.extra["c20_ascii_locale_runs"] = out.extra.get("c20_ascii_locale_runs", 0) + 1
         after = snapshot(outdir) if mode == "dir" else {}
         # what the library returns for the same file, style-map file and output format
         sm_text = None
@@ -459,7 +473,8 @@ def run(out, tier, seed, model_ok):
         with open(inpath, "rb") as f:
             lib = mammoth.convert(f, **kw)
         lib_value, lib_msgs = lib.value, [m.message for m in lib.messages]
-        case_rec = {"kind": "cli", "args": [a.replace(d, "<dir>") for a in args], "style_map": sm, "docx_hex": data.hex() if len(data) < 40000 else None, "name": name}
+        case_rec = {"kind": "cli", "args": [a.replace(d, "<dir>") for a in args], "style_map": sm, "docx_hex": data.hex() if len(data) < 40000 else None, "name": name,
+                    "ascii_locale": asc}
         if before:
             case_rec["preexisting"] = preexisting_record(before)
         if mode == "dir":
@@ -515,7 +530,7 @@ def run(out, tier, seed, model_ok):
                     except HO.Malformed:
                         pass
             err_lines = p.stderr.decode("utf-8")
-            if err_lines != "".join(m + "\n" for m in lib_msgs):
+            if err_lines != as_stderr("".join(m + "\n" for m in lib_msgs), asc):
                 probs.append("standard error is not the library's messages, one per line")
         if probs:
             out.violation("; ".join(probs[:3]), case_rec, expected={"value": lib_value[:300], "messages": lib_msgs[:5]},
@@ -545,7 +560,7 @@ def run(out, tier, seed, model_ok):
             elif mode == "path" and os.path.exists(outpath):
                 real_files[outpath] = open(outpath, "rb").read().hex()
             model_files = {n: h for n, h in m["files"]}
-            if model_files != real_files or m["stdout"] != p.stdout.hex() or m["stderr"] != p.stderr.decode("utf-8"):
+            if model_files != real_files or m["stdout"] != p.stdout.hex() or as_stderr(m["stderr"], case_rec.get("ascii_locale")) != p.stderr.decode("utf-8"):
                 out.violation("files / streams written by the command differ from the cliRun specification", case_rec,
                               expected={"files": sorted(model_files), "stderr": m["stderr"][:200]}, actual={"files": sorted(real_files), "stderr": p.stderr.decode("utf-8")[:200]})
     shutil.rmtree(base, ignore_errors=True)
@@ -593,7 +608,7 @@ def replay(out, payload, model_ok):
             with open(os.path.join(outdir, fn), "wb") as f:
                 f.write(bytes.fromhex(hx))
     before = snapshot(outdir) if outdir else {}
-    p = run_cli(args, d)
+    p = run_cli(args, d, ASCII_LOCALE if case.get("ascii_locale") else None)
     seen = []
 
     def conv(image):
@@ -618,7 +633,7 @@ def replay(out, payload, model_ok):
         out.violation("the command exited with status %d" % p.returncode, case)
     elif got != want:
         out.violation("the bytes written (%s) are not the UTF-8 encoding of the library's value (%d bytes)" % ("nothing" if got is None else "%d bytes" % len(got), len(want)), case)
-    elif p.stderr.decode("utf-8") != "".join(m.message + "\n" for m in lib.messages):
+    elif p.stderr.decode("utf-8") != as_stderr("".join(m.message + "\n" for m in lib.messages), case.get("ascii_locale")):
         out.violation("standard error is not the library's messages, one per line", case)
     elif outdir and recreated:
         # every file of the directory, byte by byte
